@@ -132,6 +132,29 @@ def grammar_items(tier: str) -> list:
         out.append((RefGrammar({"<start>": e, "<x>": Alt((Lit("x"), Lit("y")))}), "text"))
     for e in families.exprs(bin_atoms(), 1 if tier == "quick" else 2, unary=[unary[0], unary[1], unary[2], unary[3], unary[5]], full_binary_depth=1):
         out.append((RefGrammar({"<start>": e, "<x>": Alt((Lit(b"\x01"), Lit(b"\x02")))}, binary=True), "binary"))
+    # grouping frames of operator depth 3: postfix operator over a concatenation / alternative whose first, middle
+    # and last elements are themselves groups, postfixed items or atoms, followed by a tail
+    a, b, c, d, e = Lit("a"), Lit("b"), Lit("c"), Lit("d"), Lit("e")
+    ends = [a, Alt((a, b)), Opt(a), Star(Alt((a, b))), Seq((a, b)), Rep(Alt((a, b)), 1, 2)]
+    ends2 = [e, Alt((d, e)), Opt(e), Plus(Alt((d, e))), Rep(Alt((d, e)), 2, None)]
+    frames = []
+    for u in (unary if tier != "quick" else [unary[1], unary[0], unary[4], unary[5]]):
+        for first in ends:
+            for last in ends2:
+                for mid in ((), (c,)):
+                    frames.append(Seq((u(Seq((first,) + mid + (last,))), Lit("z"))))
+                frames.append(Seq((u(Alt((Seq((first, c)), last))), Lit("z"))))
+                frames.append(Seq((NT("<x>"), u(Seq((NT("<x>"), first, last))))))
+    for f in frames:
+        out.append((RefGrammar({"<start>": f, "<x>": Alt((Lit("x"), Lit("y")))}), "frame"))
+    # the same text once as a plain literal and once as a regex (and as str / bytes) in one spec, both orders
+    for txt in ("x+", "[ab]", "a.", "\\d"):
+        for first_is_regex in (False, True):
+            l, r = (Rx(txt), Lit(txt)) if first_is_regex else (Lit(txt), Rx(txt))
+            out.append((RefGrammar({"<start>": Seq((NT("<l>"), Lit(":"), NT("<r>"))), "<l>": l, "<r>": r}), "same_text_two_kinds"))
+            lb, rb = (Rx(txt, True), Lit(txt.encode())) if first_is_regex else (Lit(txt.encode()), Rx(txt, True))
+            out.append((RefGrammar({"<start>": Seq((NT("<l>"), Lit(b":"), NT("<r>"))), "<l>": lb, "<r>": rb}, binary=True), "same_text_two_kinds"))
+        out.append((RefGrammar({"<start>": Seq((NT("<l>"), Lit(":"), NT("<r>"))), "<l>": Lit(txt), "<r>": Lit(txt.encode())}), "same_text_two_kinds"))
     # generators and computed repetitions
     out.append((RefGrammar({"<start>": Seq((NT("<n>"), Rep(NT("<x>"), 0, None, expr="int(<n>)"))), "<n>": Alt((Lit("1"), Lit("2"))), "<x>": Lit("x")}), "computed_rep"))
     out.append((RefGrammar({"<start>": Seq((NT("<k>"), NT("<v>"))), "<k>": Lit("k"), "<v>": Plus(NT("<x>")), "<x>": Alt((Lit("1"), Lit("2")))},
